@@ -696,3 +696,53 @@ Proof.
   pose proof (position_inverse lines l c Hok Hin) as Hq. rewrite Hoff in Hq.
   rewrite Hq in Hp. inversion Hp as [[Hl Hc]]. rewrite <- Hl, <- Hc. split; assumption.
 Qed.
+
+(* ------------------------------------------------------------------ *)
+(* argument-dependent raises: otto's checks decide as ES5 does          *)
+
+Lemma to_integer_float_spec a : to_integer_float a = spec_to_integer a.
+Proof.
+  destruct a as [| |n|m e]; try reflexivity. cbn [to_integer_float spec_to_integer].
+  destruct (Z.leb_spec 0 e); [reflexivity|]. f_equal.
+  assert (Hd : 0 < 2 ^ (- e)) by (apply Z.pow_pos_nonneg; lia).
+  rewrite Z.quot_div by lia. rewrite (Z.sgn_pos (2 ^ (- e))) by exact Hd.
+  rewrite (Z.abs_eq (2 ^ (- e))) by lia. lia.
+Qed.
+
+Lemma is_array_length_spec a : is_array_length a = spec_is_uint32 a.
+Proof.
+  destruct a as [| |n|m e]; try reflexivity. cbn [is_array_length spec_is_uint32].
+  destruct (Z.leb_spec 0 e).
+  - destruct (Z.leb_spec 0 (m * 2 ^ e)); cbn [andb]; [|reflexivity].
+    destruct (Z.ltb_spec (m * 2 ^ e) (2 ^ 32)); destruct (Z.leb_spec (m * 2 ^ e) (2 ^ 32 - 1)); lia.
+  - assert (Hd : 0 < 2 ^ (- e)) by (apply Z.pow_pos_nonneg; lia).
+    set (d := 2 ^ (- e)) in *. clearbody d.
+    destruct (Z.leb_spec 0 m) as [Hm|Hm].
+    + rewrite (Z.abs_eq m) by lia. rewrite andb_true_r.
+      destruct (m mod d =? 0); cbn [andb]; [|reflexivity].
+      assert (0 <= m / d) by (apply Z.div_pos; lia).
+      destruct (Z.leb_spec 0 (m / d)); [|lia]. cbn [andb].
+      destruct (Z.ltb_spec (m / d) (2 ^ 32)); destruct (Z.leb_spec (m / d) (2 ^ 32 - 1)); lia.
+    + rewrite andb_false_r. cbn [andb].
+      assert (m / d < 0) by (apply Z.div_lt_upper_bound; lia).
+      destruct (Z.leb_spec 0 (m / d)); [lia|]. cbn [andb]. apply andb_false_r.
+Qed.
+
+Theorem throws_as_es5 : forall fn a b, spec_throws fn a = Some b -> model_throws fn a = b.
+Proof.
+  intros fn a b H. unfold model_throws, spec_throws in *.
+  rewrite to_integer_float_spec, is_array_length_spec.
+  destruct fn as [|p|p]; try discriminate.
+  do 3 (try (destruct p as [p|p|]; try discriminate));
+    try (inversion H; reflexivity); try (inversion H; apply orb_comm);
+    destruct a; try (inversion H; reflexivity); cbn [spec_to_integer] in *;
+    repeat match type of H with context [ext_lt ?i ?k] => destruct (ext_lt i k) end;
+    repeat match type of H with context [ext_gt ?i ?k] => destruct (ext_gt i k) end;
+    try discriminate; inversion H; reflexivity.
+Qed.
+
+(* why residues modulo 2^32 are generated: a check on the 32-bit wrapped value decides differently *)
+Definition wrap32 (z : Z) : Z := (z + 2 ^ 31) mod 2 ^ 32 - 2 ^ 31.
+Theorem wrapped_radix_check_refuted : exists r,
+  spec_throws 1 (AFin r 0) = Some true /\ ((wrap32 r <? 2) || (36 <? wrap32 r)) = false.
+Proof. exists 4294967312. vm_compute. split; reflexivity. Qed.
